@@ -117,7 +117,11 @@ class RoundTrip(Obligation):
             meta=b.wrap_link(b.link('s0',[(b.vpath('a'),b.target_description([1]))],[],byproducts=b.byproducts(Int(32,True,0),'o','e'),command=['x'])) if run.pick(2,'which')==0 else \
                  b.wrap_layout(b.layout([b.step('s0',1,[],[],[],[])],[],[],b.datetime(4102444800),'r'))
             if w=='wrapper': return meta
-            return b.metablock(meta,[b.signature(pool_keyid(0),value=[1,2])][:run.pick(2,'nsig')])
+            ids=sorted([pool_keyid(0),pool_keyid(1)])
+            S=lambda kid,v: b.signature(kid,value=v)
+            # signature lists: none, one, two in ascending / descending key-id order, two under ONE key id (the list is data: order and repeats survive the trip)
+            sigs=[[],[S(ids[0],[1,2])],[S(ids[0],[1,2]),S(ids[1],[3])],[S(ids[1],[3]),S(ids[0],[1,2])],[S(ids[0],[1,2]),S(ids[0],[3])]][run.pick(5,'nsig')]
+            return b.metablock(meta,sigs)
         if w in ('predicate','statement'):
             def uri(s): return Agg('TypeURI',[mk_string(s) if isinstance(s,str) else s])
             def ts(secs,off=0): return Agg('TimeStamp',[Agg('DateTimeFixed',[Int(64,True,secs),Int(32,False,0),Int(32,True,off)])])
@@ -129,7 +133,9 @@ class RoundTrip(Obligation):
                 t1=[none(),some(ts(1700000000)),some(ts(1700000000,3600))][k-1]
                 return some(b.struct('ProvenanceMetadata',build_invocation_id=[none(),some(self.S(run,'inv','id'))][run.pick(2,'inv')],build_started_on=t1,build_finished_on=none(),
                                      completeness=[none(),some(b.struct('Completeness',arguments=some(Bool(z3.Bool('c_arg'))),environment=none(),materials=none()))][run.pick(2,'compl')],reproducible=none()))
-            def mats(): return [none(),some(VecO([b.struct('Material',uri=some(uri('git+x')),digest=some(b.hashmap([(mk_string('sha1'),mk_string('ab'))])))])),some(VecO([]))][run.pick(3,'mats')]
+            def mats(): return [none(),some(VecO([b.struct('Material',uri=some(uri('git+x')),digest=some(b.hashmap([(mk_string('sha1'),mk_string('ab'))])))])),some(VecO([])),
+                                 # two materials whose uris are NOT in ascending order: the list is data, its order survives the trip (recipe.definedInMaterial indexes into it)
+                                 some(VecO([b.struct('Material',uri=some(uri('z+x')),digest=some(b.hashmap([(mk_string('sha1'),mk_string('ab'))]))),b.struct('Material',uri=some(uri('a+x')),digest=none())]))][run.pick(4,'mats')]
             def slsa1(): return b.struct('SLSAProvenanceV01',builder=b.struct('Builder',id=uri(self.S(run,'bid','b'))),
                                          recipe=[none(),some(b.struct('Recipe',typ=uri('t'),defined_in_material=some(Int(64,False,z3.BitVec('dim',64))),entry_point=none(),arguments=none(),environment=none()))][run.pick(2,'recipe')],metadata=meta(),materials=mats())
             def slsa2(): return b.struct('SLSAProvenanceV02',builder=b.struct('Builder',id=uri('b')),build_type=uri(self.S(run,'bt','t')),
